@@ -101,3 +101,36 @@ SITE = [
     # _dot hands the COO x ndarray kernels the output shape (a.shape[0], b.shape[1]) with no further guard
     dict(name="site_dot_out_shape", file=CM, func="_dot", locator=("stmt_present", "out_shape = (a.shape[0], b.shape[1])")),
 ]
+
+
+# ---------------------------------------------------------------------------------------------------
+# PROGS: call skeletons (tools/sitegen/validators.py:extract_prog -> `site_prog_* : prog` in S_validators.v)
+# for the public functions whose validators are generated above.  Every call in the function must be
+# classified (fail-closed): VALIDATOR_CALLS may reject, KERNEL_CALLS touch or produce array data, NEUTRAL_CALLS
+# are scalar / shape / type bookkeeping.  `neutral_text`: exact source texts of calls whose *name* is a kernel
+# name but whose receiver is a plain ndarray / tuple (e.g. `self.coords.reshape(...)` inside COO.__init__).
+VALIDATOR_CALLS = {"normalize_axis", "normalize_index", "check_index", "check_compressed_axes", "check_zero_fill_value",
+                   "check_consistent_fill_value", "check_fill_value", "_get_broadcast_shape", "_get_nary_broadcast_shape"}
+KERNEL_CALLS = {"COO", "GCXS", "DOK", "cls", "_dot", "as_coo", "_from_coo", "linear_loc", "todense", "tocoo", "reshape",
+                "transpose", "_get_expanded_coords_data", "_sort_indices", "_sum_duplicates", "_prune",
+                "change_compressed_axes", "_mask", "stack", "tensordot", "sum"}
+NEUTRAL_CALLS = {"len", "list", "tuple", "range", "reversed", "unique", "append", "any", "all", "isinstance", "enumerate", "max",
+                 "min_scalar_type", "can_store", "reduce", "empty", "zip", "zip_longest", "_get_broadcast_parameters", "chain", "int",
+                 "iter", "result_type", "_is_scipy_sparse_obj", "hasattr", "type", "_zero_of_dtype", "equivalent", "extend",
+                 "slice", "zeros", "asarray", "super", "__init__", "warn", "format", "broadcast_to",
+                 # NumPy element-wise conversions of argument / attribute arrays
+                 "astype", "where", "flatten",
+                 # attribute bookkeeping on self (no array data is computed)
+                 "_make_shallow_copy_of", "enable_caching",
+                 # conversion of a scipy.sparse INPUT operand (before validation by construction of the API)
+                 "from_scipy_sparse"}
+PROGS = [
+    dict(name="site_prog_coo_transpose", file=CO, func="COO.transpose"),
+    dict(name="site_prog_coo_reshape", file=CO, func="COO.reshape"),
+    dict(name="site_prog_broadcast_to", file=UM, func="broadcast_to"),
+    dict(name="site_prog_tensordot", file=CM, func="tensordot"),
+    dict(name="site_prog_dot", file=CM, func="dot"),
+    dict(name="site_prog_coo_getitem", file="sparse/numba_backend/_coo/indexing.py", func="getitem"),
+    dict(name="site_prog_coo_init", file=CO, func="COO.__init__",
+         neutral_text=["self.coords.reshape((len(shape), len(data)))"]),
+]
